@@ -112,16 +112,26 @@ func leanBytesList(ss []string) string {
 
 func emitConstFacts(repo string) (string, error) {
 	c := &cfacts{repo: repo, files: map[string]*ast.File{}}
-	c.renderFacts()
-	c.staticFacts()
-	c.recoveryFacts()
-	c.returnFacts()
-	c.writerFacts()
-	c.contextFacts()
-	c.routerFacts()
-	c.leafFacts()
-	c.urlPathFacts()
-	c.treeFacts()
+	// every group of facts on its own: an extraction that trips over restructured code (a placeholder node of a
+	// missing anchor reaching an AST walk) loses its own facts only — they keep their documented values
+	for _, g := range []struct {
+		name string
+		f    func()
+	}{{"render", c.renderFacts}, {"static", c.staticFacts}, {"recovery", c.recoveryFacts}, {"return", c.returnFacts},
+		{"writer", c.writerFacts}, {"context", c.contextFacts}, {"router", c.routerFacts}, {"leaf", c.leafFacts},
+		{"urlPath", c.urlPathFacts}, {"tree", c.treeFacts}} {
+		func() {
+			defer func() {
+				if r := recover(); r != nil {
+					c.fail("%s facts: the extraction gave up (%v)", g.name, r)
+				}
+			}()
+			g.f()
+		}()
+		// what failed without a fact being added belongs to facts of THIS group that were never added (they are
+		// found below by comparing with the documented snapshot), not to the next group's first fact
+		c.pending = nil
+	}
 	// where every constant was read (for lib/constmut.py)
 	if p := os.Getenv("VERIF_FACT_SITES"); p != "" {
 		if raw, err := json.MarshalIndent(c.siteOf, "", " "); err == nil {
@@ -145,8 +155,8 @@ func emitConstFacts(repo string) (string, error) {
 	if len(c.errs) > 0 && len(documented) == 0 {
 		return "", fmt.Errorf("%d anchor(s) missing (and no documented snapshot to fall back on):\n  %s", len(c.errs), strings.Join(c.errs, "\n  "))
 	}
-	// failures after the last add belong to facts that were never added
-	trailing := strings.Join(c.pending, "; ")
+	// failures that no added fact accounts for belong to facts that were never added
+	trailing := strings.Join(c.errs, "; ")
 	var b strings.Builder
 	b.WriteString("-- Constants read from the Go source by translator/constfacts*.go (one per literal site).\n")
 	b.WriteString("-- Strings are byte lists (`List UInt8`); the text is repeated in the comment for the reader.\n")
